@@ -930,3 +930,81 @@ Proof.
   - intros a b c. apply Z.add_assoc.
   - intros a b. apply Z.add_comm.
 Qed.
+
+(* =========================================================================================== *)
+(* 7. Footprints as data: soundness of the boolean checkers run on the regenerated table         *)
+(* =========================================================================================== *)
+Definition fp_indep (x y : fp) : Prop :=
+  @disjoint loc (snd x) (snd y) /\ @disjoint loc (snd x) (fst y) /\ @disjoint loc (snd y) (fst x).
+
+Lemma disjoint_b_sound (a b : list loc) : disjoint_b a b = true -> @disjoint loc a b.
+Proof.
+  unfold disjoint_b. rewrite forallb_forall. intros H l Hl Hb. specialize (H l Hl).
+  apply negb_true_iff in H. apply (mem_false loc_eqb loc_eqb_spec) in H. auto.
+Qed.
+
+Lemma fp_indep_b_sound (x y : fp) : fp_indep_b x y = true -> fp_indep x y.
+Proof.
+  unfold fp_indep_b, fp_indep. rewrite !andb_true_iff. intros [[H1 H2] H3].
+  repeat split; apply disjoint_b_sound; auto.
+Qed.
+
+Lemma pairwise_b_sound {A} (f : A -> A -> bool) (R : A -> A -> Prop) (l : list A) :
+  (forall a b, f a b = true -> R a b) -> pairwise_b f l = true -> Pairwise R l.
+Proof.
+  intros Hs. induction l as [|a r IH]; cbn [pairwise_b]; intros H.
+  - constructor.
+  - apply andb_true_iff in H. destruct H as [H1 H2]. constructor; auto.
+    rewrite Forall_forall. rewrite forallb_forall in H1. intros x Hx. apply Hs. auto.
+Qed.
+
+(* items whose (reads, writes) are the given footprints are independent in the sense of the commutation theorem *)
+Lemma fp_indep_items (a b : sitem) : fp_indep (fp_of a) (fp_of b) -> indepi a b.
+Proof. unfold fp_indep, fp_of, indep. cbn [fst snd]. tauto. Qed.
+
+Lemma probe_independent_sound (p : probe) : probe_independent_b p = true ->
+  Pairwise fp_indep (p_comp p) /\ Pairwise fp_indep (p_bias p) /\ Pairwise fp_indep (p_collect p).
+Proof.
+  unfold probe_independent_b. rewrite !andb_true_iff. intros [[[H1 H2] H3] _].
+  repeat split; eapply pairwise_b_sound; eauto; apply fp_indep_b_sound.
+Qed.
+
+Lemma probes_independent_sound (ps : list probe) : forallb probe_independent_b ps = true ->
+  Forall (fun p => Pairwise fp_indep (p_comp p) /\ Pairwise fp_indep (p_bias p) /\ Pairwise fp_indep (p_collect p)) ps.
+Proof.
+  rewrite forallb_forall. intros H. rewrite Forall_forall. intros p Hp. apply probe_independent_sound. auto.
+Qed.
+
+(* =========================================================================================== *)
+(* 8. Guard of the bias loop; the log                                                            *)
+(* =========================================================================================== *)
+Lemma bias_loop_any_mode (need_main_thread : bool) (c : cfg) (t : nat) (ob : list nat) (s : store) :
+  Permutation ob (seq 0 (n_bias_items c t)) ->
+  seqi (runi (bias_loop_items need_main_thread c t ob) s)
+       (runi ((if c_use_script c && negb (c_script_after c) then script_items c else []) ++ map bias_item (active_biases t (c_biases c))) s).
+Proof.
+  intros HP. unfold bias_loop_items. destruct need_main_thread.
+  - apply seq_eq_refl.
+  - unfold smp_bias_work. apply (bias_phase _ _ (c_script c)).
+    + apply active_biases_NoDup.
+    + apply script_before_cases.
+    + exact HP.
+Qed.
+
+(* the log under any schedule is a rearrangement of the serial log: same messages, each as often *)
+Lemma log_rearrangement {A} (msgs : list (list A)) (order : list nat) :
+  Permutation order (seq 0 (length msgs)) -> Permutation (log_of msgs order) (log_of msgs (seq 0 (length msgs))).
+Proof.
+  intros H. unfold log_of. apply Permutation_concat. rewrite pick_all. apply pick_perm. exact H.
+Qed.
+
+(* on one thread the messages of one item stay together and in order: the log is the concatenation in execution order *)
+Lemma log_serial {A} (msgs : list (list A)) : log_of msgs (seq 0 (length msgs)) = concat msgs.
+Proof. unfold log_of. rewrite pick_all. reflexivity. Qed.
+
+(* lock-protected shared accumulators (error word, citation counters): each item contributes one element of a commutative
+   monoid under the lock; the accumulated value does not depend on the order in which the items take the lock *)
+Lemma locked_accumulator_order_independent (M : Type) (op : M -> M -> M) (e : M) :
+  (forall a b c, op a (op b c) = op (op a b) c) -> (forall a b, op a b = op b a) -> (forall a, op e a = a) ->
+  forall (l l' : list M), Permutation l l' -> msum op e l = msum op e l'.
+Proof. intros Ha Hc Hu l l' H. apply msum_perm; auto. Qed.
